@@ -19,7 +19,7 @@ func (h *indep) Run(id int) {
 		Point("step")
 	}
 }
-func (h *indep) Finish() []string  { return nil }
+func (h *indep) Finish() []string    { return nil }
 func (h *indep) Key() (uint64, bool) { return 0, false }
 
 // lostUpdate: two threads doing tmp := x; point; x = tmp + 1 (the accesses are made in
